@@ -178,6 +178,17 @@ def tie(ctx):
     divs = []
     ctx.exhaustive = True
 
+    # the public functions asked about board sizes beyond the tables (7x7, 8x8) before anything else:
+    # whatever they answer (an error today), every size a table exists for AFTERWARDS must still fit the
+    # policy head (the tables are re-read below)
+    for n in (7, 8):
+        for call in (lambda: encoding.n_moves_for_size(n), lambda: encoding.decode_move(n, 0), lambda: encoding.encode_move(n, moves.all_moves_for_size(n)[0])):
+            try:
+                call()
+                ctx.count("size%d-beyond-tables:answered" % n)
+            except Exception:
+                ctx.count("size%d-beyond-tables:refused" % n)
+
     # --- slide lists and tables of moves.py
     lines = ["gen slides %d" % n for n in SIZES_FN] + ["gen table %d" % n for n in SIZES_FN]
     outs = driver.run_lines(lines)
@@ -236,6 +247,34 @@ def tie(ctx):
                 ids.append("crash " + type(e).__name__)
         enc_lines.append("gen encodes %d %s" % (n, mvs(cands)))
         enc_meta.append((n, cands, ids))
+        # a Move object taken from ANOTHER size's table is a move like any other: where it is a
+        # well-formed move of this size too, it has this size's id
+        for other in SIZES_TABLE:
+            if other == n or other >= n_tables:
+                continue
+            try:
+                foreign = [encoding.decode_move(other, i) for i in range(encoding.n_moves_for_size(other))]
+            except Exception:
+                continue
+            mine = {mv(m): i for i, m in enumerate(encoding.MOVES_BY_SIZE[n])} if n < n_tables else {}
+            bad = None
+            for m in foreign:
+                want = mine.get(mv(m))
+                if want is None:
+                    continue
+                try:
+                    got = int(encoding.encode_move(n, m))
+                except Exception as e:
+                    got = "crash " + type(e).__name__
+                ctx.evaluated()
+                if got != want:
+                    bad = (mv(m), got, want)
+                    break
+            ctx.count("cross-size-encode:size%d" % n)
+            if bad:
+                divs.append(Divergence("impl.cross-size", {"check": "cross-size", "size": n, "from_size": other, "move": bad[0]},
+                                       "encode_move(%d, decode_move(%d, …)) for the move %s gives %s" % (n, other, bad[0], bad[1]), "id %s (decode_move(%d, %s) is that move)" % (bad[2], n, bad[2])))
+                break
         # batch encoder on every move that has an id
         have = [m for m, i in zip(cands, ids) if i.isdigit()]
         ctx.evaluated(len(have))
@@ -379,7 +418,7 @@ def _predicate(ctx, sizes=None):
     return out
 
 
-X_KEYS = {"impl.cross-process": "unpickled-move-loses-its-id", "impl.returned-list": "table-changed-through-returned-list"}
+X_KEYS = {"impl.cross-process": "unpickled-move-loses-its-id", "impl.returned-list": "table-changed-through-returned-list", "impl.cross-size": "move-object-of-another-size-misencoded"}
 
 
 def search(ctx, divergences, broken):
@@ -407,6 +446,8 @@ def search(ctx, divergences, broken):
 
 def replay(ctx, data):
     r = data.get("replay", data)
+    if r.get("check") == "cross-size":
+        return [Violation(X_KEYS[d.component], "%s; expected %s" % (d.impl, d.model), dict(d.input)) for d in tie(ctx) if d.component == "impl.cross-size"][:1]
     if r.get("check") in ("cross-process", "returned-list-modified"):
         comp = "impl.cross-process" if r["check"] == "cross-process" else "impl.returned-list"
         return [Violation(X_KEYS[d.component], "%s; expected %s" % (d.impl, d.model), dict(d.input)) for d in _cross_process(ctx) if d.component == comp][:1]
